@@ -133,6 +133,7 @@ func (c *Ctx) ruleWhoMayCall(rule, what string, p sitePred, allowed []string, fl
 }
 
 func c03(c *Ctx) {
+	c03HashTreeComparedAtOpen(c, "C03.8/hash-tree-leaves-compared-with-the-chain-at-open")
 	c03RecoveredValues(c, "C03.7/recovered-precommitted-txs-have-their-values")
 	// ---- C03.1 store commit ordering -------------------------------------------------------
 	r := "C03.1/store-sync-order"
@@ -455,4 +456,63 @@ func c03RecoveredValues(c *Ctx, r string) {
 		}
 	}
 	c.check(used, r, fnName(f)+":verdict-acted-upon", c.pos(from[0].Pos()), "the verdict of the value check feeds a branch", "the result of the value check is not used")
+}
+
+// c03HashTreeComparedAtOpen: the files of the hash tree are synced on their own schedule; a discard rewinds the tree
+// in memory and syncs what was buffered, so after a stop the files can hold the leaf of a discarded transaction under
+// the id of the transaction that replaced it. Comparing sizes cannot see that: before the binary linking is declared
+// up to date (or completed from the tx log), OpenWith reads leaves back (AHtree.DataAt) and compares them with the
+// accumulated hashes of the chain.
+func c03HashTreeComparedAtOpen(c *Ctx, r string) {
+	f := c.mustFn(r, "embedded/store.OpenWith")
+	if f == nil {
+		return
+	}
+	var reachesDataAt func(g *ssa.Function, depth int) bool
+	reachesDataAt = func(g *ssa.Function, depth int) bool {
+		if g == nil || len(g.Blocks) == 0 || depth > 2 {
+			return false
+		}
+		found := false
+		allInstrs(g, false, func(in ssa.Instruction) {
+			cc := callOf(in)
+			if cc == nil || found {
+				return
+			}
+			if calleeName(cc) == "embedded/ahtree.(*AHtree).DataAt" {
+				found = true
+				return
+			}
+			if sc := cc.StaticCallee(); sc != nil && fnInPkgs(sc, []string{"embedded/store"}) && reachesDataAt(sc, depth+1) {
+				found = true
+			}
+		})
+		return found
+	}
+	via := func(in ssa.Instruction) bool {
+		cc := callOf(in)
+		if cc == nil {
+			return false
+		}
+		if calleeName(cc) == "embedded/ahtree.(*AHtree).DataAt" {
+			return true
+		}
+		sc := cc.StaticCallee()
+		return sc != nil && fnInPkgs(sc, []string{"embedded/store"}) && !strings.HasSuffix(sc.Name(), "syncBinaryLinking") && reachesDataAt(sc, 0)
+	}
+	from := sites(f, callTo("embedded/ahtree.Open"))
+	if len(from) == 0 {
+		c.undecided(r, fnName(f), "the hash tree is no longer opened by OpenWith")
+		return
+	}
+	q := &pathQ{fn: f, from: from, to: successReturn, via: via}
+	if w := q.bypass(); w != nil {
+		c.fail(r, fnName(f)+":leaves-read-back", c.pos(w[len(w)-1].Pos()), "the store opens without reading any leaf of the hash tree back: a leaf left by a discarded transaction stays under the id of its replacement, and every proof across it fails from then on ("+c.witnessStr(w)+")")
+	} else {
+		c.ok(r, fnName(f)+":leaves-read-back", c.pos(from[0].Pos()), "every successful open passes a comparison of hash-tree leaves with the chain")
+	}
+	for _, in := range sites(f, via) {
+		okk, d := errHandled(in)
+		c.check(okk, r, fnName(f)+":comparison-error-handled", c.pos(in.Pos()), d, d)
+	}
 }
